@@ -391,7 +391,7 @@ fn parse_new_reference_ext<'a>(input: &'a [u8], cache: &AtomCache) -> NomResult<
         return Err(nom::Err::Failure(NomError::new(input, ErrorKind::Tag)));
     };
     let (input, creation) = be_u8(input)?;
-    let mut ids = Vec::with_capacity(len as usize);
+    let mut ids = Vec::with_capacity((len as usize).min(input.len() / 4));
     let mut remaining = input;
     for _ in 0..len {
         let (rest, id) = be_u32(remaining)?;
@@ -578,7 +578,8 @@ fn parse_small_tuple<'a>(input: &'a [u8], cache: &AtomCache) -> NomResult<'a, Ow
         return Err(nom::Err::Failure(NomError::new(input, ErrorKind::TooLarge)));
     }
     let mut remaining = input;
-    let mut elements = Vec::with_capacity(arity as usize);
+    // a wire-supplied count must not drive the allocation: each element takes >= 1 byte
+    let mut elements = Vec::with_capacity((arity as usize).min(remaining.len()));
 
     for _ in 0..arity {
         let (new_remaining, term) = parse_term(remaining, cache)?;
@@ -595,7 +596,7 @@ fn parse_large_tuple<'a>(input: &'a [u8], cache: &AtomCache) -> NomResult<'a, Ow
         return Err(nom::Err::Failure(NomError::new(input, ErrorKind::TooLarge)));
     }
     let mut remaining = input;
-    let mut elements = Vec::with_capacity(arity as usize);
+    let mut elements = Vec::with_capacity((arity as usize).min(remaining.len()));
 
     for _ in 0..arity {
         let (new_remaining, term) = parse_term(remaining, cache)?;
@@ -622,7 +623,7 @@ fn parse_list<'a>(input: &'a [u8], cache: &AtomCache) -> NomResult<'a, OwnedTerm
         return Err(nom::Err::Failure(NomError::new(input, ErrorKind::TooLarge)));
     }
     let mut remaining = input;
-    let mut elements = Vec::with_capacity(len as usize);
+    let mut elements = Vec::with_capacity((len as usize).min(remaining.len()));
 
     for _ in 0..len {
         let (new_remaining, term) = parse_term(remaining, cache)?;
@@ -744,7 +745,7 @@ fn parse_newer_reference<'a>(input: &'a [u8], cache: &AtomCache) -> NomResult<'a
     let (input, creation) = be_u32(input)?;
 
     let mut remaining = input;
-    let mut ids = Vec::with_capacity(len as usize);
+    let mut ids = Vec::with_capacity((len as usize).min(remaining.len() / 4));
     for _ in 0..len {
         let (new_remaining, id) = be_u32(remaining)?;
         ids.push(id);
@@ -868,7 +869,7 @@ fn parse_new_fun_ext<'a>(input: &'a [u8], cache: &AtomCache) -> NomResult<'a, Ow
     };
 
     let mut remaining = input;
-    let mut free_vars = Vec::with_capacity(num_free as usize);
+    let mut free_vars = Vec::with_capacity((num_free as usize).min(remaining.len()));
     for _ in 0..num_free {
         let (new_remaining, term) = parse_term(remaining, cache)?;
         free_vars.push(term);
@@ -1025,7 +1026,7 @@ fn parse_small_tuple_borrowed<'a>(
         return Err(nom::Err::Failure(NomError::new(input, ErrorKind::TooLarge)));
     }
     let mut remaining = input;
-    let mut elements = Vec::with_capacity(arity as usize);
+    let mut elements = Vec::with_capacity((arity as usize).min(remaining.len()));
 
     for i in 0..arity {
         ctx.push(PathSegment::TupleElement(i as usize));
@@ -1048,7 +1049,7 @@ fn parse_large_tuple_borrowed<'a>(
         return Err(nom::Err::Failure(NomError::new(input, ErrorKind::TooLarge)));
     }
     let mut remaining = input;
-    let mut elements = Vec::with_capacity(arity as usize);
+    let mut elements = Vec::with_capacity((arity as usize).min(remaining.len()));
 
     for i in 0..arity {
         ctx.push(PathSegment::TupleElement(i as usize));
@@ -1081,7 +1082,7 @@ fn parse_list_borrowed<'a>(
         return Err(nom::Err::Failure(NomError::new(input, ErrorKind::TooLarge)));
     }
     let mut remaining = input;
-    let mut elements = Vec::with_capacity(len as usize);
+    let mut elements = Vec::with_capacity((len as usize).min(remaining.len()));
 
     for i in 0..len {
         ctx.push(PathSegment::ListElement(i as usize));
@@ -1228,7 +1229,7 @@ fn parse_newer_reference_borrowed<'a>(
     let (input, creation) = be_u32(input)?;
 
     let mut remaining = input;
-    let mut ids = Vec::with_capacity(len as usize);
+    let mut ids = Vec::with_capacity((len as usize).min(remaining.len() / 4));
     for _ in 0..len {
         let (new_remaining, id) = be_u32(remaining)?;
         ids.push(id);
@@ -1350,7 +1351,7 @@ fn parse_new_fun_ext_borrowed<'a>(
     };
 
     let mut remaining = input;
-    let mut free_vars = Vec::with_capacity(num_free as usize);
+    let mut free_vars = Vec::with_capacity((num_free as usize).min(remaining.len()));
     for i in 0..num_free {
         ctx.push(PathSegment::FunFreeVar(i as usize));
         let (new_remaining, term) = parse_term_borrowed(remaining, original_len, ctx)?;
